@@ -43,3 +43,8 @@ Definition life_ok (l : list lev) : bool :=
   | ActiveBegin :: ActiveEnd :: ServeReturn :: r => reads_ok r false false
   | _ => false
   end.
+
+(* the same when the channel is served with a context that has ALREADY ended (a connection accepted
+   while Shutdown runs): active is still delivered once and first, then the loop exits at once *)
+Definition life_run_ctx (ctx_done0 : bool) (prog : list rout) : list lev :=
+  [ActiveBegin; ActiveEnd; ServeReturn] ++ loop prog ctx_done0.
